@@ -264,16 +264,20 @@ func Run(r *mon.Run) {
 		"Engine pty: the real binary on a pty, fake shells over raw TLS (chunked bodies) send numbered printable tokens in PRNG-sized writes; the de-escaped terminal text must show them once, in order, all of them before the close/gone notice when the stream ended by itself. " +
 		"Engine ptyb: the real binary on a pty, several shells one after the other per process, each shell's class fixed by its number: /i+/o or /io; chunked body or a body with a declared Content-Length (under 256 B, a few KiB, 64-300 KiB); a patient client (sends once the shell is reported ready) or an eager one (header and output at once, like curl -d @file); content = ASCII tokens, valid 2/3/4-byte UTF-8 characters, unfinished sequences, bytes that are never UTF-8 and arbitrary bytes (all values but ESC and CR), cut into TLS writes anywhere incl. inside a character and byte by byte; the stream ends by itself right after an unfinished multibyte sequence / after non-UTF-8 bytes / after a complete multibyte character / after ASCII, or the connection is dropped (for a declared length: before the promised length). The clean terminal text between the end of the callback help that follows the previous shell and this shell's first close/gone notice, minus the attach notices and the notice's own timestamp+address prefix, with CR LF read as LF, must equal the sent bytes exactly at a natural end and be a prefix of them after a drop; no token of the shell may appear after its notice. Bytes withheld from one shell's display would surface in the next shell's region and fail its comparison. " +
 		"Engine ptynb (environment: the terminal's open file description is non-blocking and the terminal is busy): the real binary is started on an ordinary blocking pty; after it has printed its banner (before the shell attaches, or once the shell is reported ready) the harness sets O_NONBLOCK on the pty slave it holds, i.e. on the very open file description the program has as stdin/stdout/stderr, as a sibling process sharing the terminal (ssh, a multiplexer, a wrapper) does; a patient shell on /i+/o or /io (chunked) then sends 80-200 KB of numbered tokens (long lines, short lines or both) in PRNG-sized TLS writes while the terminal is not read at all until the flood is over, or is drained in short pulses, or is read all the time; then the terminal is drained. At three moments (shell still attached; after its stream ended by itself; after Ctrl+D) the terminal text after the callback help, minus the attach notices, must be a prefix of the sent bytes (LF shown as CR LF), possibly followed by (a part of) the prompt or by text of the program that contains nothing of the shell's output; any byte of the shell shown twice, left out in the middle or out of order is a violation; so is a crash (death by signal, panic). The child's /proc/PID/fdinfo/1 confirms the non-blocking flag; sessions whose display stopped short of what was sent although the terminal was drained are counted (a terminal write was refused or taken in part) and floored. " +
-		"Engines patience and patpty (schedule dimension: the PATIENCE of the display path; an operator's terminal that takes nothing for a while and then carries on is just a very slow terminal, and nobody pressed Ctrl+O). patience: a fresh broker per case, operator channel unbuffered or of 1, 2, 16, 1024 entries, output stream alone or as the half of a bidirectional attempt; in the middle of the stream (what was sent so far is on display) the consumer of the operator channel stops taking lines (bk.StallOperator) for 4, 11, 16 or 31 s - one to four such stalls per stream, 31 s at most per stream - while the shell has capacity+12..36 further reads of position-coded bytes pending (1-300 B, 2048 B, 2049-5048 B; in half of the natural ends the terminal error, alone or together with data, waits behind the stall too), then it takes lines again; the stream ends by itself (EOF / unexpected EOF / closed pipe / custom error) or, once everything is on display, by cancellation. The Plain chunks displayed up to a marker line must be exactly the bytes sent, none after the close notice, which must be there for a unidirectional natural end. Counted and floored per stall: at the moment the terminal carried on the broker's reader had not yet read everything the shell had to say (the back-pressure reached the broker and lasted), the stall lasted as planned; per stall length, channel class, several stalls per stream. patpty: the real binary on a blocking pty with -log, a patient chunked shell on /i+/o or /io sends 5-45 small TLS writes, which are displayed, then the terminal is not read at all (ptyx.PauseReading) for 11 and 31 s (thorough: 4, 11, 16, 31 s twice) while the shell sends 0.45-0.6 MB of numbered tokens in 4500-6500 TLS writes of 1-200 B (now and then 2-5 KB), more chunks than the pty's kernel buffer plus the program's 1024-entry operator channel hold; then the terminal is read again, the last 50-250 writes are sent and the body ends by itself. Oracle as in ptyb: the clean terminal text between the callback help and the first close/gone notice, minus attach notices and the notice's prefix, CR LF read as LF, equals the sent bytes; nothing of the shell after the notice. Counted and floored: when the terminal was read again the program's JSON log had recorded fewer forwarded output bytes than the shell had written. All patience cases run at the same time, beside the other engines"
+		"Engines patience and patpty (schedule dimension: the PATIENCE of the display path; an operator's terminal that takes nothing for a while and then carries on is just a very slow terminal, and nobody pressed Ctrl+O). patience: a fresh broker per case, operator channel unbuffered or of 1, 2, 16, 1024 entries, output stream alone or as the half of a bidirectional attempt; in the middle of the stream (what was sent so far is on display) the consumer of the operator channel stops taking lines (bk.StallOperator) for 4, 11, 16 or 31 s - one to four such stalls per stream, 31 s at most per stream - while the shell has capacity+12..36 further reads of position-coded bytes pending (1-300 B, 2048 B, 2049-5048 B; in half of the natural ends the terminal error, alone or together with data, waits behind the stall too), then it takes lines again; the stream ends by itself (EOF / unexpected EOF / closed pipe / custom error) or, once everything is on display, by cancellation. The Plain chunks displayed up to a marker line must be exactly the bytes sent, none after the close notice, which must be there for a unidirectional natural end. Counted and floored per stall: at the moment the terminal carried on the broker's reader had not yet read everything the shell had to say (the back-pressure reached the broker and lasted), the stall lasted as planned; per stall length, channel class, several stalls per stream. patpty: the real binary on a blocking pty with -log, a patient chunked shell on /i+/o or /io sends 5-45 small TLS writes, which are displayed, then the terminal is not read at all (ptyx.PauseReading) for 11 and 31 s (thorough: 4, 11, 16, 31 s twice) while the shell sends 0.45-0.6 MB of numbered tokens in 4500-6500 TLS writes of 1-200 B (now and then 2-5 KB), more chunks than the pty's kernel buffer plus the program's 1024-entry operator channel hold; then the terminal is read again, the last 50-250 writes are sent and the body ends by itself. Oracle as in ptyb: the clean terminal text between the callback help and the first close/gone notice, minus attach notices and the notice's prefix, CR LF read as LF, equals the sent bytes; nothing of the shell after the notice. Counted and floored: when the terminal was read again the program's JSON log had recorded fewer forwarded output bytes than the shell had written. All patience cases run at the same time, beside the other engines. " +
+		"Engine cfg (CONFIGURATION MATRIX; the statement does not depend on how the program was started): the real binary on a pty under each of its other documented options alone and under pairs drawn by index (seed-shuffled; quick 12 pairs, thorough all): -one-shell, -serve-files-from (directory, single file, relative, ../, symlinks, spaces at the edges, -flag=value, given twice, empty value), -callback-address (one, 40), -callback-template (file, symlink, missing), -ctrl-i (file, directory, missing, % and spaces in the name), -tls-certificate-cache (explicit, default location, near/inside the served directory), -log / CURLREVSHELL_LOG, -no-timestamps, -ipv6-one-liners, -listen-address forms, a flag given twice, -prompt (not run: -icanhazip, which fails fast without network, and the print-and-exit options); per cell a BIG stream (one patient shell, 3-5.5 MiB quick / 3-8 MiB thorough of numbered tokens in TLS writes of 1 B - 64 KiB, chunked or declared Content-Length, /i+/o or /io) and a LONG stream (attached 12, 16, 21 or 31 s, one small write about every second, or silent for 11/16 s in the middle, then a natural end), every single option with both, pairs with one of them in quick; all sessions at the same time as the other engines. Oracle as in ptyb (byte-exact region before the first close/gone notice); in addition a close/gone notice while the shell is still attached and sending, with bytes already written to the connection not displayed, is a violation (attached-shell-cut-off). Options, pairs, shapes, transports, >2 MiB streams, >=12 s / >=30 s attachments and silences are counted and floored"
 	r.Assumptions = []string{"position code has period > 64 KiB so any drop/duplication/reorder changes a byte at a known offset",
 		"ptyb: the line editor writes Plain chunks to the raw-mode terminal unchanged except LF -> CR LF, and removes/redraws the prompt around each write with escape sequences that ptyx's clean text undoes; payloads contain no ESC (would start an escape sequence for ptyx) and no CR (so that CR LF -> LF inverts the mapping exactly)",
 		"ptyb: operator notices have the form [time ][address] text; a region whose end cannot be told from the start of the end notice is reported inconclusive, not violated; the harness's shells attach only after the program has finished re-printing the callback help (printed by another goroutine, it could otherwise legitimately interleave with output)",
 		"ptyb: how long a patient client waits for the ready notice (3 s at most) only shapes the schedule; verdicts depend on the final terminal text only, except the bounded (30 s) waits for the ready notice before a connection is dropped (a connection dropped before it was attached promises nothing, so dropping clients drop once attached) and for the gone notice after the stream has ended",
 		"ptynb: once a write to the terminal fails (EAGAIN, possibly after a part of the buffer was taken) the unchanged program ends its output handling and shows nothing more of the shell; the statement says nothing about a terminal that refuses writes, so in this environment completeness at a natural end is NOT demanded and only the prefix / nothing-twice / nothing-reordered rule is judged, at whatever moments the harness looks (the waits for the terminal to fall quiet only choose those moments); the prompt is the default \"> \" and the payload contains neither of its characters next to each other, no ESC and no CR; stdin shares the description, so the program may also end by itself with a read error: that is not judged",
 		"patience/patpty: how long a stall really lasts is up to the clock and only decides which give-up thresholds it straddles (counted: lasted as planned); the verdict is the comparison of displayed and sent bytes and consults no clock, except the bounded waits for progress once the terminal takes lines again (30 s in-process, 60 s for the gone notice of the real binary), where the statement itself promises that what was sent is shown; a stalled terminal is a slow terminal, not a muting operator: no Ctrl+O is ever typed in these cases",
+		"cfg: the harness's shells never drop their connection, so an end notice before the harness ended the stream is the program's doing; bytes whose TLS write returned successfully on loopback have reached the program's socket; the wait for the gone notice gives up only after 30 s without any growth of the terminal text (the statement promises that what was sent is shown); attach notices and the -one-shell closing-listener notice are awaited before the first byte is sent; lines \"[time ]Server error: ...\" (what the program's HTTP server says about OTHER connections to its port, e.g. a stray connection of another process on this machine) are the program's text and are set aside (counted); the payload never contains that text; a -one-shell session whose display stops at the natural end of the stream (no close/gone notice, or less shown than sent) is reported under the key one-shell:display-stops-at-natural-end (the defect repaired by f9ae74e)",
 		"patpty: payload = ptynb's numbered ASCII tokens (no ESC, no CR); one TLS write per HTTP chunk; the shell's writes may block on TCP back-pressure during the stall (write deadline stall + 60 s, expiry = inconclusive)"}
 	// the patience cases need real time (stalls of up to 31 s): they run beside everything else
 	patienceWait := patienceStart(r)
+	// so do the sessions of the configuration matrix (shells attached for up to 31 s, streams of several MiB)
+	cfgWait := cfgStart(r)
 	n := r.N(2500, 40000)
 	if r.WantEngine("script") {
 		mon.Parallel(n, runtime.NumCPU(), func(i int) {
@@ -295,6 +299,7 @@ func Run(r *mon.Run) {
 		ptynbSessions(r)
 	}
 	patienceWait()
+	cfgWait()
 	r.Floor("bytes_displayed", 100000)
 	r.Floor("natural_ends", 100)
 	r.Floor("cancelled_ends", 30)
